@@ -4,6 +4,8 @@ package corerad
 
 import (
 	"fmt"
+
+	"github.com/mdlayher/corerad/internal/config"
 	"net/netip"
 	"sort"
 	"strings"
@@ -56,6 +58,8 @@ type advCase struct {
 	// StopHook places the stop request inside an operation: "fwd" = inside the
 	// first forwarding read, "write" = inside the first socket write, that begins
 	// at or after StopHookAfter; the request is made StopHookDelay later.
+	// Monitor runs a Monitor task instead of an Advertiser (C10 faults).
+	Monitor bool
 	// ReportK1: report a loss with the K1 signature as the known finding (C07
 	// only); other properties' parallel passes merely count it.
 	ReportK1      bool
@@ -130,6 +134,9 @@ func advRun(t *testing.T, c *advCase) *advResult {
 		res.panicMsg = "harness: " + err.Error()
 		return res
 	}
+	if c.Monitor {
+		ifi = config.Interface{Name: ifi.Name, Monitor: true}
+	}
 	res.panicMsg = vBubble(t, func() {
 		h := vNewH(ifi, exp, c.Seed)
 		h.st.SetForwarding(ifi.Name, c.Fwd)
@@ -175,10 +182,14 @@ func advRun(t *testing.T, c *advCase) *advResult {
 				cn.OnWrite = func(int, netip.Addr, *ndp.RouterAdvertisement) { fire() }
 			}
 		}
-		h.startAdvertiser()
-		h.adv.OnInconsistentRA = func(_, _ *ndp.RouterAdvertisement) {
-			res.hookCalls.Add(1)
-			h.tr.Add(vfake.Event{Kind: "hook_inconsistent"})
+		if c.Monitor {
+			h.startMonitor(false)
+		} else {
+			h.startAdvertiser()
+			h.adv.OnInconsistentRA = func(_, _ *ndp.RouterAdvertisement) {
+				res.hookCalls.Add(1)
+				h.tr.Add(vfake.Event{Kind: "hook_inconsistent"})
+			}
 		}
 		stopped := false
 		for i, s := range c.Steps {
